@@ -14,10 +14,10 @@ LEVEL = "exploration"
 RULE = (
     "Generated larger elections (40-170 units; counties of very different sizes so calibration groups of size 0, <10, "
     "=10, >10 coexist; whole-county outages; states without calibration units; levels postal_code / county_fips / "
-    "county_classification / district; beta, winsorize=False) run through the client with the gaussian estimator, the "
+    "county_classification / district, for district offices also the three-level county and classification tables; beta, winsorize=False) run through the client with the gaussian estimator, the "
     "level under test last. The oracle reads the calibration frame, the per-group models and the unadjusted unit "
     "bounds the model retains and recomputes from the statement: T = min(10, n_cal); for each group with nonreporting "
-    "units the source rows = its own calibration rows if >= T, else its state's if >= T, else all; (1) exactly one "
+    "units the source rows = its own calibration rows if >= T, else its parent's (district contest, then state) if >= T, else all; (1) exactly one "
     "model row per such group and no other; (2) mu = weighted median, var_inflate = sum w^2/(sum w)^2 of the source "
     "rows, sigma = an independent scipy.stats.bootstrap call with the run's seed on the source rows; (3) returned "
     "lower/upper = round(max(W + sum w b_unit -/+ ppf((3+alpha)/4; W mu, sigma sqrt(SS + infl W^2)), partial_g) + "
@@ -25,7 +25,7 @@ RULE = (
     "(own / state / all). Distinct = (level, branch histogram, n states)."
 )
 ASSUMPTIONS = [
-    "aggregate lists of at most two levels (what the statement's own/state/all chain describes); district-office county or classification levels (three levels) are not generated",
+    "district-office county / classification levels have three key columns; there the chain is read as own group -> its (state, district) contest -> its state -> all calibration units (the property's title says 'else its parent'; the statement's 'its state' is the parent of a two-level group)",
     "weighted medians that are not unique with margin 1e-9 are skipped",
     "the unadjusted unit bounds and the calibration frame retained on the model are trusted inputs (C04 / C14 cover them)",
 ]
@@ -59,7 +59,7 @@ def _strategy(draw):
     req = case["req"]
     req["estimands"] = req["estimands"][:1]
     req["mp"].pop("winsorize", None)
-    levels = ["postal_code", "county_fips", "county_classification"] if office == "G" else ["postal_code", "district"]
+    levels = ["postal_code", "county_fips", "county_classification"] if office == "G" else ["postal_code", "district", "county_fips", "county_classification"]
     level = draw(st.sampled_from(levels))
     others = [a for a in req["aggregates"] if a not in (level, "unit") and a in levels]
     req["aggregates"] = ["unit"] + others + [level]
@@ -109,7 +109,7 @@ def reference_check(case, run, recs, level, e, alpha, viol):
     req = case["req"]
     office = case["office"]
     keys = level_keys(office, level)
-    if len(keys) > 2:
+    if len(keys) > 3:
         return None
     model = run.client.model
     rh = run.client.results_handler
@@ -148,16 +148,15 @@ def reference_check(case, run, recs, level, e, alpha, viol):
     wv = cal[wcol].to_numpy(float)
     sigma_cache = {}
     for k, idxs in non_groups.items():
-        own = [i for i, ck in enumerate(cal_keys) if ck == k]
-        st_rows = [i for i, s in enumerate(cal_states) if s == k[0]]
-        if len(own) >= T:
-            src, branch = own, "own"
-        elif len(keys) > 1 and len(st_rows) >= T:
-            src, branch = st_rows, "state"
-        else:
-            src, branch = list(range(n_cal)), "all"
-        if len(keys) == 1 and branch != "own":
-            src, branch = list(range(n_cal)), "all"
+        # own group, then each parent in turn (for the district-office county / classification levels the first parent
+        # is the (state, district) contest, then the state), then all calibration units
+        src, branch = list(range(n_cal)), "all"
+        for depth in range(len(keys), 0, -1):
+            rows_d = [i for i, ck in enumerate(cal_keys) if ck[:depth] == k[:depth]]
+            if len(rows_d) >= T:
+                src = rows_d
+                branch = "own" if depth == len(keys) else ("state" if depth == 1 else "district")
+                break
         branches[branch] = branches.get(branch, 0) + 1
         r = mb_row[k]
         w = wv[src]
